@@ -481,7 +481,9 @@ type Parser struct {
 	bs  []byte // current chunk of read bytes
 	bsp uint   // offset within [Parser.bs] for the rune after [Parser.r]
 	r   rune   // next rune; [runeEOF] when it went past EOF, or we stopped
-	w   int    // width of [Parser.r]
+	// escBs is set when r is a backslash escaped by the backslash before it.
+	escBs bool
+	w     int // width of [Parser.r]
 
 	f *File
 
